@@ -1012,6 +1012,16 @@ func (env *SpecEnv) call(x *CExpr) (SVal, error) {
 		n.heap = env.oldHeap
 		n.inOld = false
 		return (&n).tr(x.Args[0])
+	case "sametype": // sametype(a, b): interface values of the same dynamic type
+		a, err := argv(0)
+		if err != nil {
+			return SVal{}, err
+		}
+		b, err := argv(1)
+		if err != nil {
+			return SVal{}, err
+		}
+		return SVal{T: sEq(app("itag", a.T), app("itag", b.T)), Typ: boolT, Sort: "Bool"}, nil
 	case "zero": // zero(T): the zero value of type T
 		t, err := e.evalType(x.Args[0].String(), env.pkg)
 		if err != nil {
